@@ -153,3 +153,79 @@ func init() {
 	generators["passthrough"] = genPassthrough
 	generators["scanbytes"] = genScanBytes
 }
+
+// C06: deep well-nested templates and their one-edit neighbours, as
+// token-class sequences.
+func genNesting(r *rand.Rand, i int) J {
+	blocks := []string{"if", "unless", "case", "for", "tablerow", "capture", "comment", "raw"}
+	var build func(depth int) []string
+	build = func(depth int) []string {
+		out := []string{}
+		for k, n := 0, r.Intn(4); k < n; k++ {
+			switch c := r.Intn(6); {
+			case c < 2 && depth > 0:
+				b := pick(r, blocks)
+				out = append(out, b)
+				if b == "comment" || b == "raw" {
+					// opaque body: anything but the own end tag
+					for m := r.Intn(4); m > 0; m-- {
+						out = append(out, pick(r, []string{"text", "obj", "if", "endif", "else", "tag", "for", "endcase", "when"}))
+					}
+				} else {
+					out = append(out, build(depth-1)...)
+					adm := map[string][]string{"if": {"elsif", "else"}, "unless": {"else"}, "case": {"when", "else"}, "for": {"else"}}[b]
+					seenElse := false
+					for m := r.Intn(3); m > 0 && len(adm) > 0 && !seenElse; m-- {
+						cl := pick(r, adm)
+						if cl == "else" {
+							seenElse = true
+						}
+						out = append(out, cl)
+						out = append(out, build(depth-1)...)
+					}
+				}
+				out = append(out, "end"+b)
+			case c == 2:
+				out = append(out, "obj")
+			case c == 3:
+				out = append(out, "tag")
+			default:
+				if len(out) == 0 || out[len(out)-1] != "text" {
+					out = append(out, "text")
+				}
+			}
+		}
+		return out
+	}
+	toks := build(2 + r.Intn(5))
+	// one edit: delete, duplicate, replace, swap or insert
+	if r.Intn(2) == 0 && len(toks) > 0 {
+		all := append(append([]string{}, blocks...), "endif", "endunless", "endcase", "endfor", "endtablerow", "endcapture", "endcomment", "endraw", "else", "elsif", "when", "tag", "obj")
+		p := r.Intn(len(toks))
+		switch r.Intn(4) {
+		case 0:
+			toks = append(toks[:p], toks[p+1:]...)
+		case 1:
+			toks[p] = pick(r, all)
+		case 2:
+			toks = append(toks[:p], append([]string{pick(r, all)}, toks[p:]...)...)
+		default:
+			q := r.Intn(len(toks))
+			toks[p], toks[q] = toks[q], toks[p]
+		}
+	}
+	// adjacent texts would be one token
+	clean := []any{}
+	for k, t := range toks {
+		if t == "text" && k > 0 && toks[k-1] == "text" {
+			continue
+		}
+		clean = append(clean, t)
+	}
+	if len(clean) > 60 {
+		clean = clean[:60]
+	}
+	return J{"kind": "parse", "toks": clean}
+}
+
+func init() { generators["nesting"] = genNesting }
